@@ -145,6 +145,7 @@ func runC06(r *core.Run) {
 	r.Rule("R06.4", "read-side byte accounting: counter grows by the width just read", 60, true)
 	r.Rule("R06.5", "structs parsed inside a loop are fresh per iteration", 1, true)
 	r.Rule("R06.6", "writeString rejects oversized login fields before writing", 1, false)
+	r.Rule("R06.7", "write-side length formula: the declared length equals the bytes written after it (straight-line writers)", 3, false)
 
 	tds := p.Pkg("tds")
 	table, _ := lookupTable(p)
@@ -337,6 +338,7 @@ func runC06(r *core.Run) {
 	c06Accounting(r, ef)
 	c06FreshInLoop(r, ef)
 	c06WriteString(r)
+	c06LengthFormula(r, ef, pkgs)
 }
 
 func tokNames(ks []int64, names map[int64]string) string {
